@@ -58,147 +58,128 @@ Example line_start_ex : line_start ex_src 1 = 9 /\ line_start ex_src 2 = 24 /\ l
 Proof. vm_compute. repeat split; reflexivity. Qed.
 
 (* ------------------------------------------------------------------------------------ *)
-(* 2. An offset on a byte that is not a newline is rendered exactly: its own line, and the
-      column is the byte offset inside that line -- the caret points at the very byte --
-      whatever bytes precede it.                                                          *)
+(* 2. EVERY offset inside the text or at its end is rendered exactly: the line it belongs to
+      (a newline byte belongs to the line it ends; the end of the text to the last line), and
+      the column is the byte offset inside that line: 0 <= col <= length text, col = length
+      text exactly on the terminating newline / at the end of the text, and otherwise the caret
+      points at the very byte -- whatever bytes precede it (multi-byte UTF-8, CR, invalid). *)
 Theorem pos_exact : forall src pos text n col,
-  pos < length src -> nth_error src pos <> Some 10%N ->
+  pos <= length src ->
   get_line_col src pos = (text, n, col) ->
   n = S (line_of_pos src pos) /\
   nth_error (lines src) (line_of_pos src pos) = Some text /\
   line_start src (line_of_pos src pos) <= pos /\
   col = Z.of_nat (col_of_pos src pos) /\
-  (0 <= col < Z.of_nat (length text))%Z /\
-  nth_error text (Z.to_nat col) = nth_error src pos.
+  (0 <= col <= Z.of_nat (length text))%Z /\
+  (col = Z.of_nat (length text) <-> (nth_error src pos = Some 10%N \/ pos = length src)) /\
+  ((col < Z.of_nat (length text))%Z -> nth_error text (Z.to_nat col) = nth_error src pos).
 Proof. exact pos_exact_proof. Qed.
 Print Assumptions pos_exact.
 
 Example pos_exact_ex :
-  20 < length ex_src /\ nth_error ex_src 20 = Some 64%N /\
+  20 <= length ex_src /\ nth_error ex_src 20 = Some 64%N /\
   get_line_col ex_src 20 = (ex_line2, 2, 11%Z) /\ nth_error ex_line2 11 = Some 64%N /\
   col_of_pos ex_src 20 = 11.
 Proof. split; [vm_compute; repeat constructor|vm_compute; repeat split; reflexivity]. Qed.
 
-(* 3. What the code does on the two kinds of offset excluded above (stated exactly):
-      on a newline byte it reports the FOLLOWING line with column -1; at or past the end of
-      the text it reports the last line with column 1 (the initial value of col). *)
+(* 3. The two boundary situations, spelled out. *)
 Theorem pos_on_newline : forall src pos text n col,
   nth_error src pos = Some 10%N ->
   get_line_col src pos = (text, n, col) ->
-  n = S (S (line_of_pos src pos)) /\
-  nth_error (lines src) (S (line_of_pos src pos)) = Some text /\
-  col = (-1)%Z.
+  n = S (line_of_pos src pos) /\
+  nth_error (lines src) (line_of_pos src pos) = Some text /\
+  col = Z.of_nat (length text).
 Proof. exact pos_on_newline_proof. Qed.
 Print Assumptions pos_on_newline.
 
-Example pos_on_newline_ex :
-  nth_error ex_src 8 = Some 10%N /\ get_line_col ex_src 8 = (ex_line2, 2, (-1)%Z).
+Example pos_on_newline_ex :      (* the LF of the CRLF ending line 1: line 1, just past the CR *)
+  nth_error ex_src 8 = Some 10%N /\ get_line_col ex_src 8 = (bs "BEGIN {" ++ [13%N], 1, 8%Z).
 Proof. vm_compute. split; reflexivity. Qed.
 
+(* at or past the end of the text: the last line, just past its last byte *)
 Theorem pos_past_end : forall src pos text n col,
   length src <= pos ->
   get_line_col src pos = (text, n, col) ->
-  n = length (lines src) /\ nth_error (lines src) (n - 1) = Some text /\ col = 1%Z.
+  n = length (lines src) /\ nth_error (lines src) (n - 1) = Some text /\
+  col = Z.of_nat (length text).
 Proof. exact pos_past_end_proof. Qed.
 Print Assumptions pos_past_end.
 
-Example pos_past_end_ex : get_line_col ex_str 999 = (bs "}", 3, 1%Z).
-Proof. vm_compute. reflexivity. Qed.
+Example pos_past_end_ex :
+  get_line_col ex_str 999 = (bs "}", 3, 1%Z) /\ get_line_col ex_src (length ex_src) = ([], 4, 0%Z).
+Proof. vm_compute. split; reflexivity. Qed.
 
-(* FINDINGS (both reproduced on the Go binary).
-   (a) A single-line program ending in an opening quote: the "unexpected EOF while reading
-       string" error is located at tokenStart+1 = len(src), GetLineAndCol never meets that
-       offset and returns its initial column 1 -- the quote is at column 12.
-   (b) An error located on a newline byte (here: "expected }" at the EOF token, whose Pos
-       is the stale tokenStart of the last Newline token) is rendered with column -1. *)
-Theorem unterminated_string_at_eof_col_refuted :
-  exists src p, count_nl src = 0 /\ parse_program src = PErr p /\
-    nth_error src 12 = Some 39%N /\ p = length src /\
-    get_line_col src p = (src, 1, 1%Z).
-Proof. exists (bs "BEGIN { x = '"), 13. vm_compute. repeat split; reflexivity. Qed.
-Print Assumptions unterminated_string_at_eof_col_refuted.
-
-Theorem error_on_newline_negative_col_refuted :
-  exists src p, parse_program src = PErr p /\ nth_error src p = Some 10%N /\
-    get_line_col src p = ([], 2, (-1)%Z).
-Proof. exists (bs "BEGIN {" ++ [10%N]), 7. vm_compute. repeat split; reflexivity. Qed.
-Print Assumptions error_on_newline_negative_col_refuted.
+(* The three defects found by this work (column 1 for an unterminated string at the end of the
+   text; column -1 for an offset on a newline byte, reachable through the stale EOF token and
+   through literals whose content starts with a newline) were fixed in src/lexer.go and in the
+   model; the former witnesses now come out right: *)
+Example former_witnesses_fixed :
+  parse_program (bs "BEGIN { x = '") = PErr 12 /\
+  get_line_col (bs "BEGIN { x = '") 12 = (bs "BEGIN { x = '", 1, 12%Z) /\
+  parse_program (bs "BEGIN {" ++ [10%N]) = PErr 8 /\
+  get_line_col (bs "BEGIN {" ++ [10%N]) 8 = ([], 2, 0%Z) /\
+  parse_program (bs "BEGIN { '" ++ [10%N] ++ bs "abc' = 1 }") = PErr 9 /\
+  get_line_col (bs "BEGIN { '" ++ [10%N] ++ bs "abc' = 1 }") 9 = (bs "BEGIN { '", 1, 9%Z).
+Proof. vm_compute. repeat split; reflexivity. Qed.
 
 (* ------------------------------------------------------------------------------------ *)
 (* 4. Lexer errors.  [lex_inv src l]: l is a cursor over src
       (lrest l = skipn (lpos l) src, lpos l <= length src, lstart l <= lpos l).
-      Lexer.Next fails in exactly two ways, told apart by tokenStart of the final state:  *)
-
-(* 4a. unexpected character: the offset is exactly that of the offending byte (which is
-       not a newline), no newline was skipped on the way, the lexer stands just after it *)
-Theorem lexer_error_on_char : forall src l p l',
-  lex_inv src l -> lex_next l = LexErr p l' -> lstart l' = p ->
-  lpos l <= p /\ lpos l' = S p /\ lex_inv src l' /\
+      Every error of Lexer.Next is located on a byte of the text that is not a newline, with
+      no newline skipped on the way; the byte tells the two kinds apart.                   *)
+Theorem lexer_error_pos : forall src l p l',
+  lex_inv src l -> lex_next l = LexErr p l' ->
+  lpos l <= p /\ p < length src /\ lstart l' = p /\ lex_inv src l' /\
   (forall j, lpos l <= j < p -> nth_error src j <> Some 10%N) /\
-  exists c, nth_error src p = Some c /\ unexpected_byte c (nth_error src (S p)).
+  exists c, nth_error src p = Some c /\ c <> 10%N.
+Proof. exact lexer_error_pos_proof. Qed.
+Print Assumptions lexer_error_pos.
+
+(* 4a. the byte is not a quote: "unexpected character", located exactly on that byte *)
+Theorem lexer_error_on_char : forall src l p l' c,
+  lex_inv src l -> lex_next l = LexErr p l' ->
+  nth_error src p = Some c -> c <> 39%N -> c <> 34%N ->
+  unexpected_byte c (nth_error src (S p)) /\ lpos l' = S p.
 Proof. exact lexer_error_on_char_proof. Qed.
 Print Assumptions lexer_error_on_char.
 
-(* ... and rendered: the line of the byte, the caret exactly on it *)
-Theorem illegal_char_caret_exact : forall src l p l' text n col,
-  lex_inv src l -> lex_next l = LexErr p l' -> lstart l' = p ->
-  get_line_col src p = (text, n, col) ->
-  n = S (line_of_pos src p) /\
-  nth_error (lines src) (n - 1) = Some text /\
-  col = Z.of_nat (col_of_pos src p) /\
-  (0 <= col < Z.of_nat (length text))%Z /\
-  exists c, nth_error src p = Some c /\ nth_error text (Z.to_nat col) = Some c /\
-            unexpected_byte c (nth_error src (S p)).
-Proof. exact illegal_char_caret_exact_proof. Qed.
-Print Assumptions illegal_char_caret_exact.
-
 Example lexer_error_on_char_ex :
   let l := mkLexer (skipn 19 ex_src) 19 16 in
-  lex_inv ex_src l /\ lex_next l = LexErr 20 (mkLexer (skipn 21 ex_src) 21 20).
+  lex_inv ex_src l /\ lex_next l = LexErr 20 (mkLexer (skipn 21 ex_src) 21 20) /\
+  nth_error ex_src 20 = Some 64%N.
 Proof.
-  split; [unfold lex_inv; vm_compute; repeat split; repeat constructor|vm_compute; reflexivity].
+  split; [unfold lex_inv; vm_compute; repeat split; repeat constructor|vm_compute; split; reflexivity].
 Qed.
 
-(* 4b. unterminated string: the offset is one byte after the opening quote q (inside the
-       literal, or = length src when the quote is the last byte), q does not occur again *)
-Theorem lexer_error_in_string : forall src l p l',
-  lex_inv src l -> lex_next l = LexErr p l' -> lstart l' <> p ->
-  p = S (lstart l') /\ p <= length src /\ lpos l <= lstart l' /\ lpos l' = length src /\ lex_inv src l' /\
-  (forall j, lpos l <= j < lstart l' -> nth_error src j <> Some 10%N) /\
-  exists q, (q = 39%N \/ q = 34%N) /\ nth_error src (lstart l') = Some q /\
-            (forall j, p <= j -> nth_error src j <> Some q).
+(* 4b. the byte is a quote q: "unexpected EOF while reading string", located exactly on the
+       opening quote; q does not occur again and the lexer stands at the end of the text *)
+Theorem lexer_error_in_string : forall src l p l' q,
+  lex_inv src l -> lex_next l = LexErr p l' ->
+  nth_error src p = Some q -> q = 39%N \/ q = 34%N ->
+  lpos l' = length src /\ (forall j, p < j -> nth_error src j <> Some q).
 Proof. exact lexer_error_in_string_proof. Qed.
 Print Assumptions lexer_error_in_string.
 
 Example lexer_error_in_string_ex :
   let l := mkLexer (skipn 13 ex_str) 13 12 in
-  lex_inv ex_str l /\ lex_next l = LexErr 15 (mkLexer [] 21 14) /\
-  parse_program ex_str = PErr 15 /\ nth_error ex_str 14 = Some 39%N /\
-  get_line_col ex_str 15 = (bs "  x = 'ab" ++ [195%N] ++ bs "c", 2, 7%Z).
+  lex_inv ex_str l /\ lex_next l = LexErr 14 (mkLexer [] 21 14) /\
+  parse_program ex_str = PErr 14 /\ nth_error ex_str 14 = Some 39%N /\
+  get_line_col ex_str 14 = (bs "  x = 'ab" ++ [195%N] ++ bs "c", 2, 6%Z).
 Proof.
   split; [unfold lex_inv; vm_compute; repeat split; repeat constructor|vm_compute; repeat split; reflexivity].
 Qed.
 
-(* ... and rendered, when the quote is followed on its line by another byte: the line of the
-   quote, one column to its right (inside the literal).  The two excluded situations are the
-   findings above: quote = last byte of the text (column 1), quote = last byte of a line
-   (following line, column -1). *)
-Theorem string_error_caret : forall src l p l' text n col,
-  lex_inv src l -> lex_next l = LexErr p l' -> lstart l' <> p ->
-  p < length src -> nth_error src p <> Some 10%N ->
+(* ... both rendered: the line of the offending byte, the caret exactly on it *)
+Theorem lexer_error_caret_exact : forall src l p l' text n col,
+  lex_inv src l -> lex_next l = LexErr p l' ->
   get_line_col src p = (text, n, col) ->
-  n = S (line_of_pos src (lstart l')) /\
-  nth_error (lines src) (line_of_pos src (lstart l')) = Some text /\
-  col = (Z.of_nat (col_of_pos src (lstart l')) + 1)%Z /\
-  (1 <= col < Z.of_nat (length text))%Z /\
-  nth_error text (Z.to_nat col - 1) = nth_error src (lstart l') /\
-  exists q, (q = 39%N \/ q = 34%N) /\ nth_error src (lstart l') = Some q.
-Proof. exact string_error_caret_proof. Qed.
-Print Assumptions string_error_caret.
-
-Example string_error_caret_ex :      (* hypotheses as in lexer_error_in_string_ex *)
-  15 < length ex_str /\ nth_error ex_str 15 = Some 97%N /\ col_of_pos ex_str 14 = 6 /\ line_of_pos ex_str 14 = 1.
-Proof. split; [vm_compute; repeat constructor|vm_compute; repeat split; reflexivity]. Qed.
+  n = S (line_of_pos src p) /\
+  nth_error (lines src) (n - 1) = Some text /\
+  col = Z.of_nat (col_of_pos src p) /\
+  (0 <= col < Z.of_nat (length text))%Z /\
+  exists c, nth_error src p = Some c /\ nth_error text (Z.to_nat col) = Some c /\ c <> 10%N.
+Proof. exact lexer_error_caret_exact_proof. Qed.
+Print Assumptions lexer_error_caret_exact.
 
 (* 4c. unterminated regex (Lexer.Regex is called right after Lexer.Next returned the '/'
        token): the offset is that of the opening '/', no other '/' follows *)
@@ -234,7 +215,8 @@ Print Assumptions regex_error_caret.
 (* ------------------------------------------------------------------------------------ *)
 (* 5. Token spans.  Every token returned by Lexer.Next lies inside the text, GetString on it
       does not panic and returns the slice it denotes, the cursor invariant is kept, the
-      token starts at tokenStart, ends before the cursor, and no newline was skipped.     *)
+      token starts at tokenStart, ends before the cursor, no newline was skipped, and the EOF
+      token sits at the end of the text.                                                  *)
 Theorem lex_next_span : forall src l t l',
   lex_inv src l -> lex_next l = LexTok t l' ->
   tok_in_src src t /\
@@ -242,6 +224,7 @@ Theorem lex_next_span : forall src l t l',
   lex_inv src l' /\
   tpos t = lstart l' /\ tpos t + tlen t <= lpos l' /\ lpos l <= lpos l' /\
   (ttag t <> TEOF -> lpos l <= tpos t /\ tpos t < lpos l') /\
+  (ttag t = TEOF -> tpos t = length src) /\
   (forall j, lpos l <= j < tpos t -> nth_error src j <> Some 10%N).
 Proof. exact lex_next_span_proof. Qed.
 Print Assumptions lex_next_span.
@@ -250,10 +233,11 @@ Example lex_next_span_ex :
   lex_inv ex_src (new_lexer ex_src) /\
   let l := mkLexer (skipn 14 ex_src) 14 13 in
   lex_inv ex_src l /\ lex_next l = LexTok (mkTok TStr 16 2) (mkLexer (skipn 19 ex_src) 19 16) /\
-  get_string ex_src (mkTok TStr 16 2) = Some [195%N; 169%N].
+  get_string ex_src (mkTok TStr 16 2) = Some [195%N; 169%N] /\
+  lex_next (mkLexer (skipn 26 ex_src) 26 24) = LexTok (mkTok TEOF 26 0) (mkLexer [] 26 26).
 Proof.
   split; [unfold lex_inv; vm_compute; repeat split; repeat constructor|].
-  split; [unfold lex_inv; vm_compute; repeat split; repeat constructor|vm_compute; split; reflexivity].
+  split; [unfold lex_inv; vm_compute; repeat split; repeat constructor|vm_compute; repeat split; reflexivity].
 Qed.
 
 (* The text of a token: identifiers and numbers denote src[tokenStart:pos] (non-empty), a string
@@ -333,12 +317,34 @@ Theorem error_pos_in_src : forall src pos,
 Proof. exact error_pos_in_src_proof. Qed.
 Print Assumptions error_pos_in_src.
 
-Theorem syntax_error_line_consistent : forall src pos text n col,
+(* THE positive statement for syntax errors: every offset the parser reports (its own errors
+   and the lexer errors it passes on) is rendered exactly -- the line the offset belongs to,
+   0 <= col <= length of that line, col = length only on the newline ending the line or at the
+   end of the text, otherwise the caret is on the very byte. *)
+Theorem error_col_in_line : forall src pos text n col,
   parse_program src = PErr pos \/ parse_expression_src src = PErr pos ->
   get_line_col src pos = (text, n, col) ->
-  pos <= length src /\ nth_error (lines src) (n - 1) = Some text /\ 1 <= n <= length (lines src).
-Proof. exact syntax_error_line_consistent_proof. Qed.
-Print Assumptions syntax_error_line_consistent.
+  pos <= length src /\
+  n = S (line_of_pos src pos) /\
+  nth_error (lines src) (n - 1) = Some text /\
+  col = Z.of_nat (col_of_pos src pos) /\
+  (0 <= col <= Z.of_nat (length text))%Z /\
+  (col = Z.of_nat (length text) <-> (nth_error src pos = Some 10%N \/ pos = length src)) /\
+  ((col < Z.of_nat (length text))%Z -> nth_error text (Z.to_nat col) = nth_error src pos).
+Proof. exact error_col_in_line_proof. Qed.
+Print Assumptions error_col_in_line.
+
+(* ... and for runtime errors, which are located at the Pos of a token of the AST: such a
+   token satisfies tok_in_src (parse_spans), hence Pos <= length src and pos_exact applies *)
+Theorem ast_token_rendered_exact : forall src t text n col,
+  tok_in_src src t ->
+  get_line_col src (tpos t) = (text, n, col) ->
+  n = S (line_of_pos src (tpos t)) /\
+  nth_error (lines src) (line_of_pos src (tpos t)) = Some text /\
+  col = Z.of_nat (col_of_pos src (tpos t)) /\
+  (0 <= col <= Z.of_nat (length text))%Z.
+Proof. exact ast_token_rendered_exact_proof. Qed.
+Print Assumptions ast_token_rendered_exact.
 
 Example error_pos_in_src_ex :      (* "expected )" in the middle of line 3 of 4 *)
   let src := bs "BEGIN {" ++ [10%N] ++ bs "# " ++ [226%N; 130%N; 172%N; 10%N] ++ bs "  x = (1 + 2 ; y = 3" ++ [10%N] ++ bs "}" in
